@@ -996,3 +996,144 @@ equivalent("c03-eq-gaussian-redundant-mask", "C03", (T, """        y = (
             * np.exp(-np.square(x - m) / (2.0 * std**2))
         )"""))
 equivalent("c03-eq-spike-redundant-mask", "C03", (T, "        y = self.height * np.where(np.isnan(x), np.nan, 1.0) * np.exp(-np.abs(10.0 / w * (x - c)))", "        y = np.exp(-np.abs(10.0 / w * (x - c))) * self.height"))
+
+# ------------------------------------------------------------------------------------------ C11
+mutant("c11-ramp-ignores-height", "C11", (T, "        x = s + (e - s) * y / h\n", "        x = s + (e - s) * y\n"), "D3/Ramp.tsukamoto/parameters")
+mutant("c11-sigmoid-ignores-argument", "C11", (T, "        x = i + np.log(h / y - 1.0) / -s", "        x = i + np.log(h / 0.5 - 1.0) / -s"), "D3/Sigmoid.tsukamoto/argument")
+mutant("c11-concave-not-monotonic", ["C11", "C03"], (T, """        return True
+
+    def tsukamoto(self, y: Scalar) -> Scalar:
+        r\"\"\"Compute the tsukamoto value of the monotonic term for activation degree $y$.
+
+        Note: Equation
+            $y=\\\\begin{cases}""", """        return False
+
+    def tsukamoto(self, y: Scalar) -> Scalar:
+        r\"\"\"Compute the tsukamoto value of the monotonic term for activation degree $y$.
+
+        Note: Equation
+            $y=\\\\begin{cases}"""), "M1/") if False else None
+mutant("c11-sshape-python-if", ["C11", "C02"], (T, """        x = np.where(
+            y <= h / 2.0,
+            s + (e - s) * np.sqrt(y / (2 * h)),
+            e - (e - s) * np.sqrt((h - y) / (2 * h)),
+        )
+        return x
+
+    def is_monotonic""", """        if y <= h / 2.0:
+            x = s + (e - s) * np.sqrt(y / (2 * h))
+        else:
+            x = e - (e - s) * np.sqrt((h - y) / (2 * h))
+        return x
+
+    def is_monotonic"""), "V1/SShape.tsukamoto")
+mutant("c11-triangle-claims-monotonic", ["C11", "C03"], (T, """        self.left, self.top, self.right, self.height = self._parse(3, parameters)
+""", """        self.left, self.top, self.right, self.height = self._parse(3, parameters)
+
+    def is_monotonic(self) -> bool:
+        return True
+"""), "M1/Triangle/monotonic")
+mutant("c11-arc-unused-end", "C11", (T, """        r = e - s
+        c = s + r
+        sign = -1 if s < e else 1""", """        r = 1.0
+        c = s + r
+        sign = -1 if s < 0 else 1"""), "D3/Arc.tsukamoto/parameters")
+
+# ------------------------------------------------------------------------------------------ C10
+WSUM = """            weighted_sum = weighted_sum + np.where(w == 0.0, 0.0, w * z)
+            weights = weights + w
+
+        y = (weighted_sum / weights).squeeze()  # type: ignore
+        return y
+"""
+mutant("c10-regress-zero-times-inf", "C10", (D, WSUM, WSUM.replace("np.where(w == 0.0, 0.0, w * z)", "w * z")), "A2/WeightedAverage.defuzzify/Sigmoid")
+mutant("c10-siblings-diverge", "C10", (D, WSUM, WSUM.replace("np.where(w == 0.0, 0.0, w * z)", "np.where(w <= 0.0, 0.0, w * z * 1.0)")), "S3/WeightedAverage~WeightedSum/contribution")
+mutant("c10-tsukamoto-selected-for-takagi", "C10", (D, """            if this_type == WeightedDefuzzifier.Type.Tsukamoto
+            else Term.membership.__name__
+        )
+        for activated in fuzzy_output.grouped_terms().values():
+            w = activated.degree
+            z = activated.term.__getattribute__(membership)(w)
+            # an activation with zero degree contributes nothing, even when z is infinite (eg, Sigmoid.tsukamoto(0))
+            weighted_sum = weighted_sum + np.where(w == 0.0, 0.0, w * z)
+            weights = weights + w
+
+        y = (weighted_sum / weights).squeeze()  # type: ignore""", """            if this_type == WeightedDefuzzifier.Type.TakagiSugeno
+            else Term.membership.__name__
+        )
+        for activated in fuzzy_output.grouped_terms().values():
+            w = activated.degree
+            z = activated.term.__getattribute__(membership)(w)
+            # an activation with zero degree contributes nothing, even when z is infinite (eg, Sigmoid.tsukamoto(0))
+            weighted_sum = weighted_sum + np.where(w == 0.0, 0.0, w * z)
+            weights = weights + w
+
+        y = (weighted_sum / weights).squeeze()  # type: ignore"""), "S3/WeightedAverage.defuzzify/value")
+mutant("c10-ungrouped-terms", "C10", (D, """        for activated in fuzzy_output.grouped_terms().values():
+            w = activated.degree
+            z = activated.term.__getattribute__(membership)(w)
+            # an activation with zero degree contributes nothing, even when z is infinite (eg, Sigmoid.tsukamoto(0))
+            weighted_sum = weighted_sum + np.where(w == 0.0, 0.0, w * z)
+            weights = weights + w
+
+        y = weighted_sum / weights""", """        for activated in fuzzy_output.terms:
+            w = activated.degree
+            z = activated.term.__getattribute__(membership)(w)
+            # an activation with zero degree contributes nothing, even when z is infinite (eg, Sigmoid.tsukamoto(0))
+            weighted_sum = weighted_sum + np.where(w == 0.0, 0.0, w * z)
+            weights = weights + w
+
+        y = weighted_sum / weights"""), "S3/")
+mutant("c10-infer-monotonic-as-takagi", "C10", (D, """        elif component.is_monotonic():
+            return WeightedDefuzzifier.Type.Tsukamoto""", """        elif component.is_monotonic():
+            return WeightedDefuzzifier.Type.TakagiSugeno"""), "T-inf/WeightedDefuzzifier.infer_type/monotonic")
+mutant("c10-infer-mixed-silently-first", "C10", (D, """            raise TypeError(
+                f"cannot infer type of {cls.__name__}, got multiple types: {sorted(str(t) for t in types)}"
+            )""", """            return sorted(types, key=str)[0]"""), "T-inf/WeightedDefuzzifier.infer_type/collection-mixed")
+mutant("c10-weighted-sum-plain", "C10", (D, """        y = weighted_sum / weights
+        # This is done to get "invalid" output values from activated terms with zero activation degrees.
+        # Thus, returning nan values in those cases. A regular weighted sum would result in zero.
+        y = (y * weights).squeeze()  # type: ignore
+        return y""", """        y = weighted_sum.squeeze()  # type: ignore
+        return y"""), "A3/WeightedSum.defuzzify/all-zero")
+mutant("c10-empty-seed-zero", "C10", (D, """        weighted_sum = scalar(0.0 if fuzzy_output.terms else nan)
+        weights = scalar(0.0)
+        membership = (
+            Term.tsukamoto.__name__
+            if this_type == WeightedDefuzzifier.Type.Tsukamoto
+            else Term.membership.__name__
+        )
+        for activated in fuzzy_output.grouped_terms().values():
+            w = activated.degree
+            z = activated.term.__getattribute__(membership)(w)
+            # an activation with zero degree contributes nothing, even when z is infinite (eg, Sigmoid.tsukamoto(0))
+            weighted_sum = weighted_sum + np.where(w == 0.0, 0.0, w * z)
+            weights = weights + w
+
+        y = weighted_sum / weights""", """        weighted_sum = scalar(0.0)
+        weights = scalar(1.0)
+        membership = (
+            Term.tsukamoto.__name__
+            if this_type == WeightedDefuzzifier.Type.Tsukamoto
+            else Term.membership.__name__
+        )
+        for activated in fuzzy_output.grouped_terms().values():
+            w = activated.degree
+            z = activated.term.__getattribute__(membership)(w)
+            # an activation with zero degree contributes nothing, even when z is infinite (eg, Sigmoid.tsukamoto(0))
+            weighted_sum = weighted_sum + np.where(w == 0.0, 0.0, w * z)
+            weights = weights + w
+
+        y = weighted_sum / weights"""), "A3/WeightedSum.defuzzify/seeds")
+mutant("c10-group-default-maximum", "C10", (T, "        aggregation = self.aggregation or UnboundedSum()", "        aggregation = self.aggregation or self.aggregation"), "W-grp/Aggregated.grouped_terms/default-aggregation")
+mutant("c10-group-by-class", "C10", (T, """            if activated.term.name not in groups:
+                groups[activated.term.name] = Activated(""", """            if activated.term.name not in groups:
+                groups[type(activated.term).__name__] = Activated("""), "W-grp/Aggregated.grouped_terms/same-key")
+equivalent("c10-eq-mask-z-instead", "C10", [(D, WSUM, WSUM.replace("np.where(w == 0.0, 0.0, w * z)", "w * np.where(w == 0.0, 0.0, z)")),
+    (D, """            weighted_sum = weighted_sum + np.where(w == 0.0, 0.0, w * z)
+            weights = weights + w
+
+        y = weighted_sum / weights""", """            weighted_sum = weighted_sum + w * np.where(w == 0.0, 0.0, z)
+            weights = weights + w
+
+        y = weighted_sum / weights""")])
